@@ -104,8 +104,14 @@ def adjuster_table(ctx: Ctx) -> Tuple[Dict[Tuple[str, str], ast.AST], List[Tuple
         # `x.type == T`, `x.type in [T, U]`, or a disjunction of those
         alternatives = test.values if isinstance(test, ast.BoolOp) and isinstance(test.op, ast.Or) else [test]
         for alt in alternatives:
+            left_text = txt(alt.left) if isinstance(alt, ast.Compare) else ""
+            if isinstance(alt, ast.Compare) and isinstance(alt.left, ast.Name):
+                # a hoisted `kind = feature.type`
+                bound = [txt(v) for v in bound_from(func, alt.left.id)]
+                if len(bound) == 1:
+                    left_text = bound[0]
             if isinstance(alt, ast.Compare) and len(alt.ops) == 1 and isinstance(alt.ops[0], (ast.Eq, ast.In)) \
-                    and txt(alt.left).endswith(".type"):
+                    and left_text.endswith(".type"):
                 comp = alt.comparators[0]
                 elts = comp.elts if isinstance(comp, (ast.List, ast.Tuple, ast.Set)) else [comp]
                 for elt in elts:
@@ -278,6 +284,26 @@ def _rank_table(func: ast.AST, expr: ast.AST) -> Optional[ast.AST]:
         if not (isinstance(source, ast.Call) and call_name(source) == "sorted" and len(source.args) == 1 and not source.keywords):
             return None
         return source.args[0]
+    def looped(node: ast.FunctionDef) -> Optional[ast.AST]:
+        """ ranks = {}; rank = 0; for n in sorted(X): rank += 1; ranks[n] = rank; return ranks """
+        rets = [r for r in walk_local(node) if isinstance(r, ast.Return) and isinstance(r.value, ast.Name)]
+        loops = [lp for lp in walk_local(node) if isinstance(lp, ast.For) and isinstance(lp.iter, ast.Call)
+                 and call_name(lp.iter) == "sorted" and len(lp.iter.args) == 1 and not lp.iter.keywords and isinstance(lp.target, ast.Name)]
+        if len(rets) != 1 or len(loops) != 1 or any(isinstance(x, (ast.Break, ast.Continue, ast.If)) for x in walk_local(loops[0])):
+            return None
+        table, loop, number = rets[0].value.id, loops[0], loops[0].target.id
+        body = [st for st in loop.body]
+        if len(body) != 2 or not (isinstance(body[0], ast.AugAssign) and isinstance(body[0].op, ast.Add) and txt(body[0].value) == "1"
+                                  and isinstance(body[0].target, ast.Name)):
+            return None
+        counter = body[0].target.id
+        if not (isinstance(body[1], ast.Assign) and txt(body[1].targets[0]) == f"{table}[{number}]" and txt(body[1].value) == counter):
+            return None
+        inits = {txt(n.targets[0]) if isinstance(n, ast.Assign) else txt(n.target): txt(n.value) for n in node.body
+                 if isinstance(n, (ast.Assign, ast.AnnAssign)) and n.value is not None}
+        if inits.get(counter) != "0" or inits.get(table) not in ("{}", "dict()"):
+            return None
+        return loop.iter.args[0]
     found = direct(expr, None)
     if found is not None:
         return found
@@ -287,6 +313,8 @@ def _rank_table(func: ast.AST, expr: ast.AST) -> Optional[ast.AST]:
                 rets = [r for r in walk_local(node) if isinstance(r, ast.Return) and r.value is not None]
                 if len(rets) == 1:
                     inner = direct(rets[0].value, node.args.args[0].arg)
+                    if inner is None:
+                        inner = looped(node)
                     if inner is not None and txt(inner) == node.args.args[0].arg:
                         return expr.args[0]
     return None
